@@ -358,7 +358,8 @@ impl<LhsT: GemmInT, RhsT: GemmInT, OutT: GemmOutT> GemmExecutor<LhsT, RhsT, OutT
             (a, b) => {
                 a.par_iter()
                     .zip(b)
-                    .zip(out_data.par_chunks_mut(out_mat_stride))
+                    // Chunk size must be non-zero, even if the output matrices are empty.
+                    .zip(out_data.par_chunks_mut(out_mat_stride.max(1)))
                     .try_for_each(|((a_mat, b_mat), out_mat)| {
                         self.gemm_uninit(out_mat, *a_mat, *b_mat, opts.clone())
                             .map(|_| ())
